@@ -428,4 +428,11 @@ func (group *Group) delIn() {
 	group.httptsGopCache.Clear()
 	group.sdpCtx = nil
 	group.patpmt = nil
+
+	// 编码信息属于刚刚结束的这路输入，必须清掉。
+	// 否则下一个同名的输入如果只有音频，新加入的订阅者会因为VideoCodec不为空而一直等待视频关键帧，收不到任何数据
+	group.stat.AudioCodec = ""
+	group.stat.VideoCodec = ""
+	group.stat.VideoWidth = 0
+	group.stat.VideoHeight = 0
 }
